@@ -457,6 +457,45 @@ func innermostLoop(b *ssa.BasicBlock) (*ssa.BasicBlock, map[*ssa.BasicBlock]bool
 	return best, bestSet
 }
 
+// earlyLoopExits lists the blocks inside the loop (other than its header) that leave it towards the code
+// following the loop, i.e. break-like exits; exits that never reach the loop's normal continuation (returns, panics)
+// are not listed.
+func earlyLoopExits(h *ssa.BasicBlock, loop map[*ssa.BasicBlock]bool) []*ssa.BasicBlock {
+	var done []*ssa.BasicBlock
+	for _, s := range h.Succs {
+		if !loop[s] {
+			done = append(done, s)
+		}
+	}
+	isDone := func(i ssa.Instruction) bool {
+		if instrIndex(i) != 0 {
+			return false
+		}
+		for _, d := range done {
+			if i.Block() == d {
+				return true
+			}
+		}
+		return false
+	}
+	var out []*ssa.BasicBlock
+	for _, b := range h.Parent().Blocks {
+		if !loop[b] || b == h {
+			continue
+		}
+		for _, s := range b.Succs {
+			if loop[s] {
+				continue
+			}
+			if found, _ := pathExists(point{s, 0}, isDone, nil, nil); found {
+				out = append(out, b)
+				break
+			}
+		}
+	}
+	return out
+}
+
 // ---------------------------------------------------------------- misc
 
 func posLess(a, b ssa.Instruction) bool { return instrPos(a) < instrPos(b) }
